@@ -570,10 +570,33 @@ def main():
             # the failing obligation sits in a function that also serves this property, but the finding is not a
             # violation of this property's statement: recorded in the evidence, no KNOWN-FINDING line
             print("note: known finding %s (listed under %s) lies in a function that also serves %s" % (k["id"], ",".join(k.get("properties", [])), prop))
+    # ---------------- bounded stand-ins for code no contract can reach (SQL of the client DBM)
+    import replay as replay_mod
+    bounded_notes = []
+    for bname, (bsrc, _m, _t, _p, _f, bprops, bbound) in replay_mod.BOUNDED.items():
+        stale = [m for m in undecided if "stale-transcription" in m and bsrc in m]
+        if prop not in bprops or not any(bname == "plugin_dbm" and u["name"] in ("wt_client", "retrier", "plugin_main") for u in units):
+            continue
+        if not stale and tier != "thorough":
+            continue
+        if os.environ.get("VERIF_NO_BOUNDED"):
+            continue
+        b = replay_mod.bounded(bname)
+        bounded_notes.append({"name": bname, "bounded": True, "bound": b["bound"], "sequences": b["sequences"], "outcome": b["outcome"], "input": b["input"],
+                              "why": "transcription pin stale: the SQL text changed" if stale else "thorough tier: validation of the assumed stub contracts"})
+        if b["kind"] == "state" and stale:
+            # the SQL changed AND the real store now deviates, on a concrete operation sequence, from the store contract that
+            # the proofs of this property assume: reported as a violation found by the BOUNDED stand-in (not by a proof)
+            violations.append(({"name": bname + "_bounded"}, {"id": "%s::bounded-store-contract" % bname, "fn": bsrc, "label": None, "where": bsrc, "src": None,
+                               "msg": "BOUNDED check: " + b["outcome"], "rendered": b["input"], "bounded_input": b["input"], "bounded_cmd": b["cmd"]}))
+            undecided = [m for m in undecided if not ("stale-transcription" in m and bsrc in m)]
+        elif b["kind"] is not None and not stale:
+            undecided.append("bounded validation: the stub contracts of %s do not describe the unchanged real code: %s" % (bname, b["input"]))
+        elif stale:
+            undecided.append("bounded stand-in for %s: %s (%s); the changed SQL is still undecided" % (bname, b["outcome"], b["input"] or ("%d sequences" % b["sequences"])))
     replays = []
     if violations:
         os.makedirs(REPLAYS, exist_ok=True)
-        import replay as replay_mod
         for n, (u, ob) in enumerate(violations):
             rp = os.path.join(REPLAYS, "%s-%s-%d.json" % (prop, u["name"], n))
             rec = {"property": prop, "unit": u["name"], "failed_obligation": ob["id"], "function": ob.get("fn"),
@@ -581,6 +604,11 @@ def main():
                    "verifier": "verus", "verifier_message": ob["msg"], "verifier_output": ob.get("rendered"),
                    "concrete_input": None, "replayed_on_real_code": False}
             found = False
+            if ob.get("bounded_input"):
+                rec.update(verifier="bounded differential check (stand-in, not a proof)", concrete_input=ob["bounded_input"], replayed_on_real_code=True, replay_cmd=ob["bounded_cmd"])
+                json.dump(rec, open(rp, "w"), indent=1)
+                replays.append((rp, True, ob))
+                continue
             try:
                 found = replay_mod.search(prop, u, ob, rec)
             except Exception as e:  # replay is best effort and never decides
@@ -628,6 +656,8 @@ def main():
                            "its requires-at-call-sites, ensures, invariants, overflow/unwrap/index checks) generated from the text extracted from /repo on this run; "
                            "discharged = those the back end accepted. labelled_clauses lists the named contract clauses of this property.",
             "functions_under_contract": fns,
+            "frame_scans": frame_notes,
+            "bounded_checks": bounded_notes,
             "labelled_clauses": sorted(set(samples)),
             "samples": sorted(set(samples))[:40] or ["(no labelled clause)"],
             "back_end": "Verus 0.2026.09.13 / Z3 (and CBMC via Kani where a unit says engine=kani)",
